@@ -65,8 +65,9 @@ def collect_diffs(path, decisions):
     for d in decisions:
         ld = adjust_patch_level(path, d.common_path, d.local_diff)
         rd = adjust_patch_level(path, d.common_path, d.remote_diff)
-        local_diff.extend(ld)
-        remote_diff.extend(rd)
+        # (the diff of a side that did nothing can be None)
+        local_diff.extend(ld or ())
+        remote_diff.extend(rd or ())
     local_diff = combine_patches(local_diff)
     remote_diff = combine_patches(remote_diff)
     return local_diff, remote_diff
@@ -79,8 +80,8 @@ def collect_conflicting_diffs(path, decisions):
         if d.conflict:
             ld = adjust_patch_level(path, d.common_path, d.local_diff)
             rd = adjust_patch_level(path, d.common_path, d.remote_diff)
-            local_conflict_diffs.extend(ld)
-            remote_conflict_diffs.extend(rd)
+            local_conflict_diffs.extend(ld or ())
+            remote_conflict_diffs.extend(rd or ())
     return local_conflict_diffs, remote_conflict_diffs
 
 
@@ -131,7 +132,7 @@ def bundle_decisions_by_index(base_path, decisions):
         else:
             # Removerange or addrange will have common_path
             # on list and key only in the diff entries
-            keys = set(e.key for e in chain(d.local_diff, d.remote_diff, d.get("custom_diff", ())))
+            keys = set(e.key for e in chain(d.local_diff or (), d.remote_diff or (), d.get("custom_diff") or ()))
             assert len(keys) == 1
             key, = keys
         decisions_by_index[key].append(d)
